@@ -5,7 +5,9 @@ real runs (deep-copied at Optimizer.__init__); for each instance the full menu o
 applied, one Optimizer(...).optimize_to_humans call per perturbed copy; metamorphic laws as oracle."""
 import copy
 
-from .. import common, options, pipeline, supplies
+import itertools
+
+from .. import common, options, pipeline, supplies, tiny
 from ..common import violation
 
 PRESETS_Q = ("ms_example_resilient", "ms_worst", "yaml_net_baseline")
@@ -25,6 +27,8 @@ def solve(c, t):
 
 
 def months_menu(N, thorough):
+    if N <= 13:
+        return [("all", list(range(N))), ("m0", [0]), ("last", [N - 1])]
     m = [("all", list(range(N))), ("m0", [0]), ("m13", [13]), ("last", [N - 1])]
     if thorough:
         m += [("m6", [6]), ("mid", [N // 2])]
@@ -154,6 +158,36 @@ def job(j):
     return out
 
 
+# ------------------------------------------------------------------ tiny instances: every balance and cap binds in some of them
+def tiny_specs(thorough):
+    Ns = (3, 5) if thorough else (3,)
+    for N in Ns:
+        crops = [[0.0] * N, [0.4] * N, [1.5] + [0.0] * (N - 1)] + ([[0.0] * (N - 1) + [1.5]] if thorough else [])
+        meats = [[0.3] * N] + ([[0.0] * (N - 1) + [1.2]] if thorough else [])
+        stocks = (0.4, 1.5) if thorough else (0.4,)
+        seaweeds = (False, True) if thorough else (False,)
+        # industrial foods both below and far above what people may eat of them (a surplus must go to feed/biofuel, where the
+        # per-use caps bind); the charge menu includes biofuel above feed (a cap taken from the wrong charge shows only then)
+        for stock, cr, mt, scp, cs, ch, sw, store, fb, waste in itertools.product(stocks, crops, meats, (None, 0.3, 0.9), (None, 0.6), (0.0, 0.3), seaweeds, (True, False),
+                                                                                  ((0.0, 0.0), (0.1, 0.05), (0.05, 0.2)), (0.0, 20.0)):
+            yield dict(N=N, need=1000.0, stock=stock, crops=cr, meat=mt, scp=scp, cs=cs, const_h=ch, seaweed=sw, store=store, feed=fb[0], biofuel=fb[1], waste=waste)
+
+
+def tiny_job(chunk):
+    pipeline.init()
+    out = {"v": [], "solves": 0, "infeasible": 0, "moved": 0, "instances": 0, "p": []}
+    for spec in chunk:
+        c, t = tiny.build(**spec)
+        key = {"iso3": "TINY", "preset": common.digest(spec), "round": 1}
+        vs, st, p0 = check_instance(c, t, key, {"tiny": spec}, True)
+        out["v"].extend(vs[:3])
+        out["instances"] += 1
+        out["p"].append(p0)
+        for k in ("solves", "infeasible", "moved"):
+            out[k] += st[k]
+    return out
+
+
 def run(tier, seed):
     supplies.init()
     isos = options.countries()
@@ -166,6 +200,11 @@ def run(tier, seed):
         presets = PRESETS_Q
     jobs = [(iso, pn, thorough) for iso in sel for pn in presets]
     res = common.pmap(job, jobs, init_fn=pipeline.init, chunksize=1)
+    specs = list(tiny_specs(thorough))
+    tres = common.pmap(tiny_job, [specs[i:i + 6] for i in range(0, len(specs), 6)], init_fn=pipeline.init, chunksize=1)
+    tiny_stats = {"instances": sum(r["instances"] for r in tres), "solves": sum(r["solves"] for r in tres), "moved": sum(r["moved"] for r in tres),
+                  "infeasible": sum(r["infeasible"] for r in tres)}
+    res = res + tres
     vs = [v for r in res for v in r["v"]]
     solves = sum(r["solves"] for r in res)
     inst = sum(r["instances"] for r in res)
@@ -174,7 +213,9 @@ def run(tier, seed):
            "instances": inst, "perturbed_programmes_infeasible (no value, not judged)": sum(r["infeasible"] for r in res),
            "perturbations_that_moved_the_optimum": sum(r["moved"] for r in res),
            "runs_skipped": [r["skipped"][:100] for r in res if r.get("skipped")][:5],
+           "tiny_instances": tiny_stats,
            "bound": {"countries": sel if not thorough else "all %d" % len(isos), "presets": list(presets), "rounds": "first and last people-maximising round of each run",
+                     "tiny": "full product of %d tiny %s-month instances on the real Optimizer (stock, crop and meat patterns, SCP, sugar, seaweed, storage regime, feed/biofuel charge incl. biofuel above feed, retail waste), the whole perturbation menu on each" % (len(specs), "3- and 5" if thorough else "3"),
                      "menu": "every supply kind x month bucket %s x +5 %% of monthly need; each retail waste -5 points; feed and biofuel charge +1 %% of need per bucket; scale x0.5, x3" % [m[0] for m in months_menu(120, thorough)]},
            "alphabet": "a state is one captured LP instance; a transition one single perturbation of it, solved by the real Optimizer.optimize_to_humans",
            "samples": [{"iso3": "USA", "preset": "ms_example_resilient", "round": 1, "perturbation": "crops+m13"}, {"iso3": "USA", "preset": "ms_worst", "round": 3, "perturbation": "scale x3.0"}],
@@ -186,5 +227,8 @@ def run(tier, seed):
 
 def replay(rp):
     pipeline.init()
+    if "tiny" in rp:
+        r = tiny_job([rp["tiny"]])
+        return [v for v in r["v"] if v["key"]["perturbation"] == rp.get("perturbation", v["key"]["perturbation"])]
     r = job((rp["iso3"], rp["preset"], True))
     return [v for v in r["v"] if v["key"]["round"] == rp["round"] and v["key"]["perturbation"] == rp.get("perturbation", v["key"]["perturbation"])]
